@@ -220,6 +220,8 @@ func ErrKind(err error) string {
 		return "closed"
 	case strings.Contains(msg, "invalid argument"):
 		return "invalid"
+	case strings.Contains(msg, "too many links"):
+		return "ELOOP"
 	case strings.Contains(msg, "invalid whence"):
 		return "EINVAL"
 	}
@@ -887,12 +889,27 @@ func (ti *TreeIndex) Class(p string) string {
 
 		switch {
 		case !pok:
+			// an ancestor may be a symbolic link: classify what the path resolves to
+			if rp, via := ti.resolveParents(p); via != "" {
+				if rp == "" {
+					return "via-link(" + via + ")"
+				}
+
+				if rp != p {
+					return "via-link>" + ti.Class(rp)
+				}
+			}
+
 			return "missing(parent missing)"
 		case pt == "d":
 			return "missing"
 		case pt == "f":
 			return "below-file"
 		default:
+			if rp, via := ti.resolveParents(p); via != "" && rp != "" && rp != p {
+				return "via-link>" + ti.Class(rp)
+			}
+
 			return "below-symlink>" + ti.resolveType(par, 0)
 		}
 	}
@@ -980,4 +997,54 @@ func (ti *TreeIndex) Relation(a, b string, sameFile func(a, b string) bool) stri
 	}
 
 	return "unrelated"
+}
+
+// resolveParents follows symbolic links in every element of p but the last
+// and returns the resulting spelling ("" when a parent dangles or loops) and a
+// note saying whether a link was crossed ("", "link", "dangling", "loop").
+func (ti *TreeIndex) resolveParents(p string) (string, string) {
+	cur := p
+	via := ""
+
+	for hops := 0; hops < 16; hops++ {
+		parts := strings.Split(strings.TrimPrefix(cur, "/"), "/")
+		prefix := ""
+		changed := false
+
+		for i := 0; i < len(parts)-1; i++ {
+			next := prefix + "/" + parts[i]
+
+			switch ti.Typ[next] {
+			case "d":
+				prefix = next
+			case "l":
+				t := ti.Target[next]
+				if !strings.HasPrefix(t, "/") {
+					t = prefix + "/" + t
+				}
+
+				cur = cleanPath(t + "/" + strings.Join(parts[i+1:], "/"))
+				via = "link"
+				changed = true
+			case "f":
+				return cur, via
+			default:
+				if via != "" {
+					return "", "dangling"
+				}
+
+				return cur, via
+			}
+
+			if changed {
+				break
+			}
+		}
+
+		if !changed {
+			return cur, via
+		}
+	}
+
+	return "", "loop"
 }
